@@ -222,8 +222,41 @@ def children(o):
         yield from o
     elif isinstance(o, cabc.Set):
         yield from o
-    elif type(o).__module__.startswith('pypyr.') and hasattr(o, 'value'):
-        yield o.value
+    else:
+        # any other object: LOOK INSIDE it - a yaml tag object (`.value`: for !jsonify a ruamel mapping / sequence),
+        # an instance with attributes that hold containers (__dict__ / __slots__ walk)
+        for _, v in attr_items(o):
+            yield v
+
+
+_NO_WALK = (types.ModuleType, type, types.CodeType, types.FrameType, types.FunctionType, types.BuiltinFunctionType,
+            types.MethodType, types.MethodDescriptorType, types.WrapperDescriptorType, types.GetSetDescriptorType,
+            types.MemberDescriptorType, types.TracebackType, types.GeneratorType, logging.Logger, logging.Handler,
+            threading.Thread, bytearray, BaseException)
+
+
+def attr_items(o):
+    """(attribute name, value) of an object that is neither an atom nor one of the containers: instance dict,
+    then the slots of its classes. Modules, classes, functions, code and similar are not walked."""
+    if is_atom(o) or isinstance(o, _NO_WALK) or isinstance(o, (cabc.Mapping, list, tuple, cabc.Set)):
+        return []
+    out = []
+    try:
+        d = getattr(o, '__dict__', None)
+        if isinstance(d, dict):
+            out += [(str(k), v) for k, v in list(d.items())]
+        for cls in type(o).__mro__:
+            slots = cls.__dict__.get('__slots__', ())
+            for name in ((slots,) if isinstance(slots, str) else tuple(slots)):
+                if name in ('__dict__', '__weakref__'):
+                    continue
+                try:
+                    out.append((name, object.__getattribute__(o, name)))
+                except AttributeError:
+                    pass
+    except Exception:      # noqa: BLE001 - an object that does not let itself be inspected has no children here
+        return out
+    return out
 
 
 def reach(roots):
@@ -314,10 +347,16 @@ class SharedIndex:
             elif isinstance(o, (list, tuple)):
                 for i, v in enumerate(o):
                     walk(v, path + [i])
+            elif not isinstance(o, cabc.Set):
+                for a, v in attr_items(o):
+                    walk(v, path + ['.' + a])
         walk(root, [])
         for i, o in reach([root]).items():
             if i in idx:
                 self.ref_of.setdefault(i, dict(reg, i=idx[i]))
+            # objects the model has no cell for (a tag object, what its `.value` holds, anything inside another
+            # object's attributes) are known to the id() monitor all the same: label without a model address
+            if i in idx or i in paths:
                 self.label_of.setdefault(i, {'what': what, 'path': [p if isinstance(p, (int, str)) else repr(p)
                                                                      for p in paths.get(i, ['?'])]})
 
@@ -348,19 +387,90 @@ class SharedIndex:
         of the MUTABLE ones, labels of those that are immutable all the way down - atom-only tuples,
         frozensets: sharing them is as harmless as sharing atoms)."""
         seen = reach([ctx])
-        hits = [i for i in seen if i in self.ref_of]
+        hits = [i for i in seen if i in self.label_of]
         # an object that is immutable all the way down (an atom-only tuple: `copy.deepcopy` hands back the very same
         # object) is shared like an atom is - unobservable; the model gives every copy cells of its own
-        refs = sorted((self.ref_of[i] for i in hits if not deep_immutable(seen[i])), key=canon)
+        refs = sorted((self.ref_of[i] for i in hits if i in self.ref_of and not deep_immutable(seen[i])), key=canon)
         labels = sorted((self.label_of[i] for i in hits if not deep_immutable(seen[i])), key=canon)
         frozen = sorted((self.label_of[i] for i in hits if deep_immutable(seen[i])), key=canon)
         return refs, labels, frozen
 
 
-def deep_immutable(o):
+def deep_immutable(o, depth=0):
     if is_atom(o) or isinstance(o, frozenset):
         return True
-    return isinstance(o, tuple) and all(deep_immutable(x) for x in o)
+    if isinstance(o, tuple):
+        return depth < 50 and all(deep_immutable(x, depth + 1) for x in o)
+    # a value object of the package itself (a `!py` / `!sic` tag, a `!jsonify` of a scalar) that holds atoms only:
+    # shared like an atom is; one that holds a container (a `!jsonify` of a mapping / sequence) is not
+    if type(o).__module__.startswith('pypyr.') and not isinstance(o, (cabc.Mapping, list, cabc.Set) + _NO_WALK):
+        items = attr_items(o)
+        return bool(items) and depth < 50 and all(deep_immutable(v, depth + 1) for _, v in items)
+    return False
+
+
+# ---------------------------------------------------------------------------------------------
+# yaml tag objects (!jsonify / !py / !sic) as arguments: pipelines as text + a step that changes, in place, every
+# mutable container it can reach from the context - THROUGH objects' attributes too
+# ---------------------------------------------------------------------------------------------
+
+POISON_SRC = '''"""step of the C12 harness: in-place change of every mutable container reachable from the context,
+looking inside objects (a tag object's .value, instance attributes)."""
+import collections.abc as cabc
+
+ATOMS = (type(None), bool, int, float, str, bytes, complex)
+
+
+def attrs(o):
+    out = []
+    d = getattr(o, '__dict__', None)
+    if isinstance(d, dict):
+        out += list(d.values())
+    for cls in type(o).__mro__:
+        slots = cls.__dict__.get('__slots__', ())
+        for name in ((slots,) if isinstance(slots, str) else tuple(slots)):
+            try:
+                out.append(object.__getattribute__(o, name))
+            except AttributeError:
+                pass
+    return out
+
+
+def poison(roots, mark, skip=()):
+    seen = set(id(x) for x in skip)
+    count = 0
+    todo = list(roots)
+    while todo:
+        o = todo.pop()
+        if isinstance(o, ATOMS) or id(o) in seen or isinstance(o, (type, BaseException)) or callable(o):
+            continue
+        seen.add(id(o))
+        if isinstance(o, cabc.MutableMapping):
+            todo.extend(list(o.values()))
+            o['poison'] = o.get('poison', '') + mark
+            count += 1
+        elif isinstance(o, list):
+            todo.extend(list(o))
+            o.append(mark)
+            count += 1
+        elif isinstance(o, tuple):
+            todo.extend(o)
+        elif isinstance(o, cabc.MutableSet):
+            o.add(mark)
+            count += 1
+        elif isinstance(o, (bytearray, cabc.Set, cabc.Mapping)):
+            pass
+        elif type(o).__module__ != 'builtins':
+            todo.extend(attrs(o))
+    return count
+
+
+def run_step(context):
+    """Every value of the context (not the Context object's own top level)."""
+    mark = str(dict.get(context, 'tag', '?'))
+    n = poison(list(dict.values(context)), mark)
+    context['poisoned'] = dict.get(context, 'poisoned', 0) + n
+'''
 
 
 # ---------------------------------------------------------------------------------------------
@@ -1335,6 +1445,7 @@ class Sandbox:
             self.dir = self.root / 'w'
             self.dir.mkdir()
             (self.dir / 'vobs.py').write_text(VOBS_SRC)
+            (self.dir / 'vpoison.py').write_text(POISON_SRC)
             sys.path.insert(0, str(self.dir))
             importlib.invalidate_caches()
             sys.modules.pop('vobs', None)
@@ -1482,6 +1593,7 @@ class Sandbox:
         self.config.vars, self.config.shortcuts = vars_, shortcuts
         logging.disable(disabled)
         sys.modules.pop('vobs', None)
+        sys.modules.pop('vpoison', None)
         shutil.rmtree(self.root, ignore_errors=True)
 
 
